@@ -315,6 +315,37 @@ def check_amounts(strs, ctx):
             ctx.count('boundary-rejected')
 
 
+def w_pair_cli(ctx, wid, seed):
+    """a REAL funding / spending pair through the real binary: the pair as it is runs; every structurally invalid variant of EITHER text (trailing bytes, a second
+    transaction appended, truncation) is rejected with a diagnostic - a check with an unrelated --txin would be rejected anyway, for the wrong reason"""
+    import random
+    from ..gen import spends
+    rnd = random.Random(seed)
+    for typ in ('p2pkh', 'p2wpkh', 'p2sh-multisig'):
+        c = spends.build(rnd, typ, ninputs=1)
+        txh, inh = c['tx'].ser().hex(), c['fund'].ser().hex()
+        r = cli.run(cli.binpath('btcdeb'), ['--tx=' + txh, '--txin=' + inh], stdin=b'\n')
+        ctx.case('pair:%s:valid' % typ, True, dict(kind='pair', type=typ, variant='valid'), 'cli-pair')
+        if r.timed_out:
+            ctx.inconclusive += 1
+            continue
+        if r.abnormal or r.rc != 0 or r.out.strip() != b'01':
+            ctx.violations.append(dict(campaign='pair-cli', why='a valid %s pair does not run to 01: rc=%s out=%r err=%r' % (typ, r.rc, r.out[-40:], r.err[-160:]), case=dict(kind='pair', type=typ, variant='valid'), refails=3))
+            return
+        for which in ('tx', 'txin'):
+            for name, f in (('trailing-byte', lambda h: h + '00'), ('trailing-4-bytes', lambda h: h + '00000000'), ('second-transaction-appended', lambda h: h + h), ('truncated', lambda h: h[:-2])):
+                a, b = (f(txh), inh) if which == 'tx' else (txh, f(inh))
+                r = cli.run(cli.binpath('btcdeb'), ['--tx=' + a, '--txin=' + b], stdin=b'\n')
+                case = dict(kind='pair', type=typ, variant='%s:%s' % (which, name))
+                ctx.case('pair:%s:%s:%s' % (typ, which, name), True, case, 'cli-pair')
+                if r.timed_out:
+                    ctx.inconclusive += 1
+                    continue
+                if r.abnormal or r.rc != 1 or not r.err.strip():
+                    ctx.violations.append(dict(campaign='pair-cli', why='%s on the --%s text of a %s pair was not rejected with a diagnostic: rc=%s out=%r err=%r' % (name, which, typ, r.rc, r.out[-40:], r.err[-160:]), case=case, refails=3))
+                    return
+
+
 def w_huge(ctx, wid, seed):
     """element COUNTS far beyond the compact-size boundaries (the vector decoder reads long vectors in batches): a witness stack of ~208 k items, ~125 k outputs,
     ~48 k inputs - well-formed transactions of 0.2 - 2 MB, through the in-process decoder only (no command line carries them)"""
@@ -425,7 +456,7 @@ def run(tier, t0):
     else:
         nv, npf, nc, na, ncli = 30000, 400, 30000, 10000, 150
     tasks = [(w_valid, dict(examples=nv)) for _ in range(W)] + [(w_prefix, dict(examples=npf)) for _ in range(W // 2)] + [(w_corrupt, dict(examples=nc)) for _ in range(W)] + \
-            [(w_amounts, dict(examples=na)) for _ in range(4)] + [(w_cli, dict(examples=ncli)) for _ in range(2)] + [(w_huge, dict())]
+            [(w_amounts, dict(examples=na)) for _ in range(4)] + [(w_cli, dict(examples=ncli)) for _ in range(2)] + [(w_huge, dict()), (w_pair_cli, dict())]
     m = core.parallel(PID, tasks)
     return core.finish(PID, tier, m, RULE, t0, min_nontrivial=3000 if tier == 'quick' else 100000,
                        assumptions=['reference codec vf/ref/tx.py (BIP144 as Core deserialises: a 00 after the version is the segwit marker)', 'OpenSSL SHA-256 via hashlib',
@@ -433,6 +464,10 @@ def run(tier, t0):
 
 
 def replay(rec):
+    if isinstance(rec.get('case'), dict) and rec['case'].get('kind') == 'pair':
+        ctx = core.Ctx(PID)
+        w_pair_cli(ctx, 0, 0)
+        return (not ctx.violations), str(ctx.violations[:1])[:300]
     if isinstance(rec.get('case'), dict) and rec['case'].get('kind') == 'huge-counts':
         ctx = core.Ctx(PID)
         w_huge(ctx, 0, 0)
